@@ -430,4 +430,85 @@ theorem numberToFloat_pow2_truncated (slow : SlowRadix) {F : FTy} (hF : IsLemire
       rw [if_pos hinv, hsp, toNative_eq F _ n.isNegative hslow, hbits, hlit]
       rfl
 
+/-! ## API level -/
+
+/-- the radix classes of this file -/
+inductive RadixClass (c : Cfg) : Prop
+  | pow2 (hp : c.feats.powerOfTwo = true) (hr : IsPow2 c.mantissaRadix) (hb : IsPow2 c.exponentBase)
+  | generic (G : GenericClass c)
+
+/-- what the syntax layer owes for one `Number` of a non-decimal radix (the analogue of
+`C01Number.number_exact_of_syntax` / `number_truncated_of_syntax`, which are proved for radix 10):
+untruncated — exact words with an exponent inside `±2^27`; truncated, power-of-two radix — `TruncPow2At`; truncated,
+generic radix — a mantissa word of at least 55 bits and the value of all the digits in `[w, w+1)·radix^exponent` -/
+def SyntaxFacts (c : Cfg) (n : Number) : Prop :=
+  (n.manyDigits = false → NumberExactAt c n ∧ ExpInRange n.exponent) ∧
+  (n.manyDigits = true → IsPow2 c.mantissaRadix → TruncPow2At c n) ∧
+  (n.manyDigits = true → GenericClass c → n.mantissa < 2 ^ 64 ∧ 2 ^ 55 ≤ n.mantissa ∧
+    TrueValue c.mantissaRadix (numOf n) (litFrac c.mantissaRadix c.exponentBase (numberLit c n)).1
+      (litFrac c.mantissaRadix c.exponentBase (numberLit c n)).2)
+
+/-- what `slow_radix` owes for one `Number` of a generic radix: called with the un-biased estimate of an invalid-marked
+answer of `bellerophon` that brackets the value of the digits, it returns the nearest float -/
+def SlowFacts (slow : SlowRadix) (c : Cfg) (F : FTy) (n : Number) : Prop :=
+  ∀ fp, moderatePath c F (numOf n) false = .ok fp → fp.exp < 0 →
+    Bracket F fp (litFrac c.mantissaRadix c.exponentBase (numberLit c n)).1
+      (litFrac c.mantissaRadix c.exponentBase (numberLit c n)).2 →
+    extendedToFloat F (slow c F n { fp with exp := fp.exp - invalidFp }) =
+      roundNE F.fmt (litFrac c.mantissaRadix c.exponentBase (numberLit c n)).1
+        (litFrac c.mantissaRadix c.exponentBase (numberLit c n)).2
+
+/-- **C05, one `Number`**: every radix class, truncated or not -/
+theorem numberToFloat_radix (slow : SlowRadix) {F : FTy} (hF : IsLemireFloat F) (c : Cfg) (R : RadixClass c)
+    (n : Number) (hsyn : SyntaxFacts c n) (hslow : GenericClass c → SlowFacts slow c F n) :
+    numberToFloat slow c F n false = some (numberBits c F.fmt n) := by
+  obtain ⟨s1, s2, s3⟩ := hsyn
+  cases hmany : n.manyDigits with
+  | false =>
+    obtain ⟨hx, he⟩ := s1 hmany
+    rcases R with ⟨hp, hr, hb⟩ | ⟨G⟩
+    · have hr2 : 2 ≤ c.mantissaRadix ∧ c.mantissaRadix ≤ 36 := by
+        rcases hr with h | h | h | h | h <;> rw [h] <;> omega
+      have hb2 : 2 ≤ c.exponentBase := by
+        rcases hb with h | h | h | h | h <;> rw [h] <;> omega
+      rw [pipeline_binary slow hF c hp hr hb n hmany hx.1 he hx.2.2]
+      rw [(spec_forms hF c hr2.1 hr2.2 hb2 n hmany hx.2.2).2]
+    · obtain ⟨_, _, h2, h36⟩ := generic_not_pow2 G.mem
+      rw [numberToFloat_generic_exact hF slow c G n hmany hx (hslow G)]
+      rw [(spec_forms hF c h2 h36 (by rw [G.base]; exact h2) n hmany hx.2.2).2]
+  | true =>
+    rcases R with ⟨hp, hr, hb⟩ | ⟨G⟩
+    · exact numberToFloat_pow2_truncated slow hF c hp hr hb n hmany (s2 hmany hr)
+    · obtain ⟨hw, hw55, htv⟩ := s3 hmany G
+      exact numberToFloat_generic_truncated hF slow c G n hmany hw hw55 htv (hslow G)
+
+/-- **`C05_radix_main`** — API level: for every radix class (power-of-two radices with every supported exponent base;
+the 29 generic radices of `radix` builds, `compact` or not), `f32`/`f64`, complete and partial parser, the pipeline with
+the modelled slow path prints what the specification prints (`Spec.litBits` with radix / base). Residual hypotheses,
+per `Number` the input produces: `hsyn` (`SyntaxFacts`, the syntax layer for non-decimal radices) and, for generic radices
+only, `hslow` (`SlowFacts`: `digit_comp` / `byte_comp` on the bracketing estimate). Power-of-two radices need `hsyn` only. -/
+theorem C05_radix_main (feats : Features) (fmt : Format) (R : RadixClass ⟨feats, fmt, false⟩)
+    (o : POpts) {F : FTy} (hF : IsLemireFloat F) (isPartial : Bool) (s : List Nat)
+    (hsyn : ∀ n cnt, parseFloatSyntax ⟨feats, fmt, false⟩ o isPartial s (formatError feats fmt).isNone =
+      .ok (.number n cnt) → SyntaxFacts ⟨feats, fmt, false⟩ n)
+    (hslow : ∀ n cnt, parseFloatSyntax ⟨feats, fmt, false⟩ o isPartial s (formatError feats fmt).isNone =
+      .ok (.number n cnt) → GenericClass ⟨feats, fmt, false⟩ → SlowFacts slowModel ⟨feats, fmt, false⟩ F n) :
+    parseFloatAlgoModel slowModel feats fmt o isPartial F s = parseFloatModel feats fmt o isPartial F.fmt s := by
+  apply parseFloatAlgoModel_eq_valid
+  intro _ n cnt hp
+  exact numberToFloat_radix slowModel hF ⟨feats, fmt, false⟩ R n (hsyn n cnt hp) (hslow n cnt hp)
+
+/-- **the full statement** (a `Prop`): the same without residual hypotheses, for the separator-free format classes of C12
+and inputs of bytes shorter than `2^60` -/
+def C05_radix_full : Prop :=
+  ∀ (feats : Features) (fmt : Format), RadixClass ⟨feats, fmt, false⟩ →
+    (feats.format = false ∨ C12.SepPrefixFree fmt) →
+    ∀ (o : POpts) (F : FTy), IsLemireFloat F → ∀ (isPartial : Bool) (s : List Nat),
+      (∀ x ∈ s, x < 256) → s.length < 2 ^ 60 →
+      parseFloatAlgoModel slowModel feats fmt o isPartial F s = parseFloatModel feats fmt o isPartial F.fmt s
+
+/-- non-vacuity of the classes: hexadecimal with a binary exponent; radix 3 -/
+example : RadixClass ⟨{ powerOfTwo := true }, ⟨0x0a02100000000000000000000000000c⟩, false⟩ :=
+  .pow2 rfl (by unfold IsPow2; decide) (by unfold IsPow2; decide)
+
 end LexVerif.Props.C05Final
